@@ -967,7 +967,7 @@ func c08IsBop(op string) bool {
 }
 
 func TestVerifC08Batch(t *testing.T) {
-	em := newVerifEmitter(t, "From HostdBase Require Import Base.\nFrom HostdStorage Require Import Model Batch.\nOpen Scope N_scope.", "bcase", "bcheck")
+	em := newVerifEmitter(t, "From HostdBase Require Import Base.\nFrom HostdStorage Require Import Model Batch BatchSql.\nOpen Scope N_scope.", "bcase", "bcheck_sql")
 	defer em.Close()
 
 	dir, err := os.MkdirTemp("", "verif-c08b-")
